@@ -9,6 +9,7 @@ import (
 	"go/token"
 	"go/types"
 	"math"
+	"net"
 	"regexp"
 	"sort"
 	"strconv"
@@ -946,6 +947,32 @@ func init() {
 			return tuple{int64(0), mkError(fr, err.Error())}
 		}
 		return tuple{int64(d), nilError()}
+	}
+	// net: parsing / printing of addresses goes through the host for concrete arguments
+	ipVal := func(ip net.IP) value {
+		if ip == nil {
+			return []value(nil)
+		}
+		return fromBytes([]byte(ip))
+	}
+	externals["net.ParseIP"] = func(fr *frame, args []value) value { return ipVal(net.ParseIP(cstr(args[0]))) }
+	externals["(net.IP).String"] = func(fr *frame, args []value) value {
+		b := args[0].([]value)
+		for _, e := range b {
+			if _, ok := e.(uint8); !ok {
+				X.Approx++
+				return "‹symbolic ip›"
+			}
+		}
+		return net.IP(cbytes(args[0])).String()
+	}
+	externals["net.ParseCIDR"] = func(fr *frame, args []value) value {
+		ip, n, err := net.ParseCIDR(cstr(args[0]))
+		if err != nil {
+			return tuple{[]value(nil), (*value)(nil), mkError(fr, err.Error())}
+		}
+		var cell value = structure{ipVal(n.IP), fromBytes([]byte(n.Mask))}
+		return tuple{ipVal(ip), &cell, nilError()}
 	}
 	_ = sort.Strings
 }
